@@ -166,6 +166,23 @@ def _call(packed):
         return ('err', '%r\n%s' % (item, traceback.format_exc()))
 
 
+def _watched(pool, it):
+    """A pool silently replaces a worker that was killed (out of memory, say) and the item it held
+    is never reported: the map would wait forever.  Notice the replacement and fail loudly instead."""
+    pids = {p.pid for p in pool._pool}          # pylint: disable=protected-access
+    while True:
+        try:
+            yield it.next(timeout=20)
+        except StopIteration:
+            return
+        except multiprocessing.TimeoutError:
+            now = {p.pid for p in pool._pool}   # pylint: disable=protected-access
+            if now != pids:
+                sys.stderr.write('HARNESS-ERROR: a worker process died (killed?); its work item is lost\n')
+                pool.terminate()
+                raise SystemExit(2) from None
+
+
 def pmap(func, items, procs=None, chunksize=1):
     """Run func(item)->Acc over items on a fork pool; merge results.
     A harness exception in a worker is a hard error (exit 2), never silence."""
@@ -178,7 +195,7 @@ def pmap(func, items, procs=None, chunksize=1):
     else:
         ctx = multiprocessing.get_context('fork')
         pool = ctx.Pool(min(procs, len(items)))
-        results = pool.imap_unordered(_call, [(func, it) for it in items], chunksize)
+        results = _watched(pool, pool.imap_unordered(_call, [(func, it) for it in items], chunksize))
     try:
         for status, res in results:
             if status == 'err':
